@@ -110,3 +110,30 @@ package main
 //@ func registerCompiledRoute
 //@   trusted
 //@   modifies nothing
+
+// ---- dev server reload (C19) -------------------------------------------------------------
+// "A server is listening" is an invariant of the reload manager: m.server, when set, is running.
+//@ ghost running(srv *http.Server) bool
+//@ monitor hotReloadManager.mu guards server invariant self.server != nil ==> running(self.server)
+
+// Trusted summaries of the two effectful halves (read here, exercised by the replay test):
+// prepareDevServer reads/parses/sets up and starts nothing; launchDevServer starts listening.
+//@ func (*hotReloadManager).prepareDevServer
+//@   trusted
+//@   modifies nothing
+//@   ensures err == nil ==> result != nil && fresh(result) && !running(result)
+//@   ensures err != nil ==> result == nil
+//@ func (*hotReloadManager).launchDevServer
+//@   trusted
+//@   requires srv != nil
+//@   modifies running(srv)
+//@   ensures running(srv)
+
+// startServer: on failure the previous server is untouched and still running; on success the
+// manager holds a freshly started server built from the current source.
+//@ func (*hotReloadManager).startServer
+//@   requires m != nil
+//@   strict
+//@   dyncall modifies nothing
+//@   ensures result != nil ==> m.server == atlock(m.server) && (m.server != nil ==> running(m.server))
+//@   ensures result == nil ==> m.server != nil && running(m.server) && fresh(m.server)
